@@ -179,7 +179,7 @@ example : msClone (.andOr (pk 0) wK2 wP2) = .ok (.andOr (pk 0) wK2 wP2) := clone
 /-! ## the rank table of fragment names is the byte-wise string order -/
 
 /-- `FragName.rank` (used by the model for `fragment_name().cmp(…)`) agrees with `compare` on
-the 37 Rust strings -/
+the 36 Rust strings -/
 theorem fragRank_faithful :
     FragName.all.all (fun x => FragName.all.all (fun y => compare x.str y.str == natCmp x.rank y.rank))
       = true := by decide +kernel
